@@ -537,13 +537,18 @@ class UrwidImageScreen(urwid.raw_display.Screen):
 
         if widgets:
             # Better to send the delete commands in a batch than individually
-            kitty_widgets = []
+            # A widget given more than once is cleared (and its disguise changed) only
+            # once; otherwise, three occurrences would leave its disguise unchanged.
+            kitty_widgets = {}
             for index, widget in enumerate(widgets):
                 if not isinstance(widget, UrwidImage):
                     raise arg_type_error(f"widgets[{index}]", widget)
 
-                if isinstance(widget._ti_image, KittyImage):
-                    kitty_widgets.append(widget)
+                if (
+                    isinstance(widget._ti_image, KittyImage)
+                    and widget not in kitty_widgets
+                ):
+                    kitty_widgets[widget] = None
                     widget._ti_change_disguise()
 
             if kitty_widgets:
